@@ -770,6 +770,27 @@ func (e *c09Env) run(idx []int) {
 				}
 			}
 			e.c.Oracle("snapshots " + joinInts(idx) + " " + joinInts(bits))
+			// the keys of `snapshots`, item by item: the binding's own includeSnapshotsFrom plus the kubernetes
+			// bindings of its group (`!` = no `snapshots`, `-` = an empty object)
+			keys := make([]string, len(items))
+			for i, it := range items {
+				sn, has := it["snapshots"]
+				if !has {
+					keys[i] = "!"
+					continue
+				}
+				var ks []string
+				if m, ok := sn.(map[string]any); ok {
+					for k := range m {
+						ks = append(ks, k)
+					}
+				} else {
+					ks = []string{"not-an-object"}
+				}
+				sort.Strings(ks)
+				keys[i] = joinStrs(ks)
+			}
+			e.c.Oracle("snapkeys " + joinInts(idx) + " " + strings.Join(keys, "|"))
 		}
 	} else {
 		e.c.Oracle("run " + joinInts(idx) + " " + strings.Fields(ans)[0])
@@ -894,7 +915,7 @@ func c09RawObj(ns, name string, replicas, a any) map[string]any {
 }
 
 func runC09(r *Run) {
-	r.Rule = "per case: one hook configuration (configVersion v1 or v0) rendered as JSON and loaded by the real loader: 1-3 kubernetes bindings (jq filter of the fragment: object/array/scalar/string/null results, string literals and object leaves whose content is itself a JSON text (3, true, null, an object, a quoted string), or none; 30% of the filters read through a leaf value and fail on some object states - such a state never exists before Synchronization and is followed at once, without a render, by the delete of the object (whose Deleted item is rendered) or by an update every filter accepts; keepFullObjectsInMemory on/off; group; includeSnapshotsFrom incl. self-include; executeHookOnEvent subset; one of two namespaces), optional onStartup, 0-3 schedule bindings (each with a crontab of its own; names from a small pool incl. unnamed, so that bindings of one type often share a name while only some of them include snapshots), kubernetesValidating, kubernetesMutating, 0-2 kubernetesCustomResourceConversion bindings (two rules, mostly one name) with group / includeSnapshotsFrom; real monitors on kube-client/fake; 0-3 objects before Synchronization, then 2-7 creates/updates/deletes through the dynamic tracker; every Synchronization/Event context the controllers produce plus schedule/admission/conversion/onStartup contexts is rendered alone and in combined arrays (2-4 contexts) through the real Hook.Run (file read back from a real bash hook) or ConvertBindingContextList(...).Json(). A case is non-trivial when it renders >= 3 context lists and at least one Event and one snapshot-carrying context; distinct = distinct op-line sequences."
+	r.Rule = "per case: one hook configuration (configVersion v1 or v0) rendered as JSON and loaded by the real loader: 1-3 kubernetes bindings (jq filter of the fragment: object/array/scalar/string/null results, string literals and object leaves whose content is itself a JSON text (3, true, null, an object, a quoted string), or none; 30% of the filters read through a leaf value and fail on some object states - such a state never exists before Synchronization and is followed at once, without a render, by the delete of the object (whose Deleted item is rendered) or by an update every filter accepts; keepFullObjectsInMemory on/off; group; includeSnapshotsFrom incl. self-include; executeHookOnEvent subset; one of two namespaces), optional onStartup, 0-3 schedule bindings (each with a crontab of its own; names from a small pool incl. unnamed, so that bindings of one type often share a name while only some of them include snapshots), kubernetesValidating, kubernetesMutating, 0-2 kubernetesCustomResourceConversion bindings (1-3 conversions each, all rules of the hook distinct, versions with or without the API group, mostly one name; a request for one rule or for every rule of a binding in either order, through the real EnableConversionBindings + HandleConversionEvent) with group / includeSnapshotsFrom; every 4th v1 hook in big-group mode: a group of 2-8 (mostly 3, 5, 6, 7) kubernetes bindings among 2-3 outside ones, members of any type naming one or two outside bindings in their own includeSnapshotsFrom; real monitors on kube-client/fake; 0-3 objects before Synchronization, then 2-7 creates/updates/deletes through the dynamic tracker; every Synchronization/Event context the controllers produce plus schedule/admission/conversion/onStartup contexts is rendered alone and in combined arrays (2-4 contexts) through the real Hook.Run (file read back from a real bash hook) or ConvertBindingContextList(...).Json(). A case is non-trivial when it renders >= 3 context lists and at least one Event and one snapshot-carrying context; distinct = distinct op-line sequences."
 
 	// ---- corpus: the counterexamples of the repaired defects
 	corpus := []struct {
@@ -1387,7 +1408,7 @@ func runC09(r *Run) {
 		c.Note("sweep:v0")
 	})
 	r.Exhaust = true
-	r.Extra["exhaustive_scope"] = "option sweep: v1 = 6 filter result kinds x keepFullObjectsInMemory x group x 3 includeSnapshotsFrom shapes (72 hooks with kubernetes/schedule/validating/mutating/conversion/onStartup contexts, each with a second schedule and a second conversion binding of the same name and the complementary include option, before or after its namesake), v0 = 6 filter kinds x 4 event lists (24 hooks); the cluster histories are sampled, not enumerated"
+	r.Extra["exhaustive_scope"] = "option sweep: v1 = 6 filter result kinds x keepFullObjectsInMemory x group x 3 includeSnapshotsFrom shapes (72 hooks with kubernetes/schedule/validating/mutating/conversion/onStartup contexts, the conversion binding with 2 or 3 conversions and a request for every rule, each with a second schedule and a second conversion binding of the same name and the complementary include option, before or after its namesake), v0 = 6 filter kinds x 4 event lists (24 hooks); group sweep = groups of 1..8 kubernetes bindings x 2 arrangements of the members' own includeSnapshotsFrom (16 hooks, every member's context rendered); the cluster histories are sampled, not enumerated"
 
 	n := r.N(300, 10000)
 	r.Cases(200, n, 12, func(c *Case, rng *Rng) { c09Random(r, c, rng) })
